@@ -613,6 +613,18 @@ def gen_case_concat(rng, tier):
         cb = ['concatflat', 6, 1, ct]
         ct = ['flat', 5, ct]                                   # concatenate(flatten(x.groups)): the elements of every group
     conc = ['concat', 6, ct]
+    if flat_inside and rng.random() < 0.3 and doms[0][1]:
+        # CORRELATED: an earlier conjunct has already bound the flattened element (one row per group), the concatenation is then
+        # computed per row, over that one group - the reading of the code and of the evaluator model (the specification speaks of a
+        # concatenation whose variables are free: such cases are compared with the model only)
+        item = ['map', ['f', F[rng.choice('ab')]], ['var', 2]]
+        test = ['in', item, conc] if rng.random() < 0.5 else ['contains', conc, item]
+        if rng.random() < 0.4:
+            test = ['not', test, 'fn']
+        pre = ['cmp', '!=', ct, ['lit', rng.choice([9, 0, [3]])]]
+        sel = [['var', 2]] if rng.random() < 0.6 else [['var', 2], ['var', 1]]
+        return dict(heap=heap, doms=doms, binders=[['var', 1], ['flat', 5, ct[2]], cb, ['var', 2]], sel=sel, cond=['and', pre, test, 'fn'],
+                    form='set_of', correlated=True, list_items=rng.random() < 0.6)
     if rng.random() < 0.15:
         doms[0][1] = []                                        # no parent at all
     if rng.random() < 0.2 and inner_field == 'items':
